@@ -24,6 +24,9 @@ def _exec_chunk(items):
                 db0 = PyDBML(text0, allow_properties=m['allowprops'])
             else:
                 db0 = builder.build(m, note_as_object=it['route'] == 'built_notes')
+            for flag in it.get('flips', []):            # C15: the database's flag is switched after it was built
+                db0.allow_properties = flag
+                _ = db0.dbml                            # and rendered in between
             s0 = pj.project_db(db0)
         except Exception as ex:
             out.append({'tid': it['tid'], 'model': m, 's0': {'kind': 'error', 'class': pj.classify(ex)},
